@@ -241,7 +241,7 @@ def cases(spec, ctx):
             d = depth if rng.random() < 0.6 else rng.randint(0, depth)
             xb, xst = _rand_child(rng, lens[d])
             xs.append([d, xb, xst])
-        c = {"kind": "rand", "root": root, "levels": levels, "types": _rand_types(rng, depth), "mode": rng.choice(modes + ("seq",)), "xs": xs}
+        c = {"kind": "rand", "root": root, "levels": levels, "types": _rand_types(rng, depth), "mode": rng.choice(modes + ("seq", "seqpar")), "xs": xs}
         if depth >= 2:
             # history leg: a look-alike hierarchy cut below level j0, built before or after the full one (drawn from an own stream
             # so that the other legs see the same cases as before)
@@ -368,6 +368,23 @@ class _Objs:
                 seqs.append(Sequence(H.strings[k], self.alphabet, id=f"L{k}", type=types[k], parent=placing.parent))
             self.seqs = seqs
             self.parents = seqs
+        elif self.mode == "seqpar":
+            # Parent(sequence=S, parent=P): S carries a parent of its own that equals P except for the location (none, or an out-of-date
+            # one); the documented rule: the explicitly given parent is the parent
+            from inscripta.biocantor.location.location_impl import SingleInterval
+            from inscripta.biocantor.location.strand import Strand
+
+            pars = [None] * start + [Parent(id=f"L{start}", sequence_type=types[start],
+                                             sequence=Sequence(H.strings[start], self.alphabet, id=f"L{start}", type=types[start]))]
+            for k, (blocks, strand) in enumerate(case["levels"], 1):
+                if k <= start:
+                    continue
+                up = pars[-1].reset_location(G.build([tuple(b) for b in blocks], strand))
+                n_k = len(H.strings[k])
+                stale = pars[-1] if k % 2 else pars[-1].reset_location(SingleInterval(0, n_k, Strand.PLUS))
+                S = Sequence(H.strings[k], self.alphabet, id=f"L{k}", type=types[k], parent=stale)
+                pars.append(Parent(id=f"L{k}", sequence_type=types[k], sequence=S, parent=up))
+            self.parents = pars
         else:
             pars = [None] * start + [Parent(id=f"L{start}", sequence_type=types[start])]
             for k, (blocks, strand) in enumerate(case["levels"], 1):
